@@ -219,7 +219,7 @@ class ConfigMachine(RuleBasedStateMachine):
         cli=st.dictionaries(st.sampled_from(PERSISTABLE), st.integers(0, 10**6), max_size=6),
         user=st.dictionaries(st.sampled_from(PERSISTABLE), st.tuples(st.integers(0, 10**6), st.integers(0, 20)), max_size=6),
         oh=st.dictionaries(st.sampled_from(["101", "202", "303"]), st.lists(st.sampled_from(OFXHOME_OPTS), max_size=4), max_size=3),
-        mode=st.sampled_from(["merge", "merge", "write", "write", "dry-write", "acctinfo-write"]), data=st.data(),
+        mode=st.sampled_from(["merge", "merge", "write", "write", "dry-write", "acctinfo-write", "prof-dry-write", "acctinfo-dry-write"]), data=st.data(),
     )
     def run(self, nick_i, fresh, cli, user, oh, mode, data):
         nicks = fidb_nicks()
@@ -268,11 +268,17 @@ class ConfigMachine(RuleBasedStateMachine):
             p.parent.mkdir(parents=True, exist_ok=True)
             with open(p, "w") as f:
                 cp.write(f)
-        argv = ["acctinfo" if mode == "acctinfo-write" else "stmt", nick]
-        if mode == "acctinfo-write":
-            # the acctinfo sub-command has no statement options; a user name is required
+        sub = {"acctinfo-write": "acctinfo", "acctinfo-dry-write": "acctinfo", "prof-dry-write": "prof"}.get(mode, "stmt")
+        argv = [sub, nick]
+        if sub != "stmt":
+            # the acctinfo / prof sub-commands have no statement options; acctinfo needs a user name
             cli_vals = {o: v for o, v in cli_vals.items() if o not in LIST_OPTS and o not in ("bankid", "brokerid")}
-            cli_vals.setdefault("user", "joe")
+            if sub == "acctinfo":
+                cli_vals.setdefault("user", "joe")
+        if mode in ("prof-dry-write", "acctinfo-dry-write"):
+            # "stores nothing on a dry run" holds for every sub-command that can --write
+            self.flags.add("dry run of " + sub)
+            mode = "dry-write"
         for o, v in sorted(cli_vals.items()):
             if o in BOOL_OPTS:
                 argv.append("--" + o)
